@@ -26,6 +26,9 @@ on the wire outranks every wildcarded one), and may go to the controller only wh
           length from no payload to past the SNAP header): probed with the matches of the parent frame, of its own still
           readable fields, the constants and the catch-all - only matches whose participating fields lie in headers the cut
           frame still has completely are asserted (a runt 802.3 frame is dl_type 0x05ff)
+  reads   parts A and P (the matches probed with every frame), X (every match, a second time) and H (every table, between two
+          rounds of lookups): read-only requests - flow stats, filtered flow stats, aggregate, table, desc stats, barrier - are
+          sent between the flow-mod and the lookups; reading state must not change matching
   part O  packet OBJECTS assembled with the pox.lib.packet constructors (never parsed), own / no / new VLAN tag, handed to
           rx_packet: looked up like their packed bytes and like the reference says for those bytes
 """
@@ -232,6 +235,25 @@ class Sw (object):
     self.xid += 1
     return self._observe(lambda: self.st.feed(W.packet_out(self.xid, actions, data, in_port=in_port)), in_port)
 
+  READS = ("flow-stats", "flow-stats-filtered", "aggregate-stats", "table-stats", "desc-stats", "barrier")
+  def read (self, kinds=None):
+    """Read-only controller requests (nothing in them asks the switch to change anything).  Returns None, or
+    ("raise", site) if one of them escaped the switch; the replies are C13's business and are dropped."""
+    for k in (kinds or self.READS):
+      self.xid += 1; self.calls += 1
+      if k == "flow-stats": b = W.stats_request(self.xid, W.OFPST_FLOW, W.flow_stats_body())
+      elif k == "flow-stats-filtered": b = W.stats_request(self.xid, W.OFPST_FLOW, W.flow_stats_body(W.match_fields(dl_type=0x0800)))
+      elif k == "aggregate-stats": b = W.stats_request(self.xid, W.OFPST_AGGREGATE, W.flow_stats_body())
+      elif k == "table-stats": b = W.stats_request(self.xid, W.OFPST_TABLE)
+      elif k == "desc-stats": b = W.stats_request(self.xid, W.OFPST_DESC)
+      else: b = W.barrier_request(self.xid)
+      try:
+        self.st.feed(b)
+      except Exception as e:
+        self.st.drain(); return ("raise", _site(e))
+      self.st.drain()
+    return None
+
   def _observe (self, do, in_port):
     self.calls += 1
     try:
@@ -337,7 +359,9 @@ class Checker (object):
     self.blame_memo[mk] = res
     return res
 
-  def check_match (self, mbytes, probes):
+  def check_match (self, mbytes, probes, read=False):
+    """read=True: the read-only requests of Sw.READS are sent between the installation and the lookups
+    (reading state must not change matching)."""
     rep, sw = self.rep, self.sw
     pm = W.parse_match(mbytes)
     m = ref_match(pm)
@@ -352,6 +376,13 @@ class Checker (object):
       rep.violation(key, "flow-mod ADD with match %s: %r" % (mbytes.hex(), r), dict(kind="match", match=mbytes.hex(),
                     frame=probes[0].name))
       sw.reset(); return
+    if read:
+      rep.transitions += len(sw.READS)
+      r = sw.read()
+      if r is not None:
+        rep.violation("%s:read:raises:%s" % (PID, r[1]), "read-only requests with match %s installed raised %s" % (mbytes.hex(), r[1]),
+                      dict(kind="match", match=mbytes.hex(), frame=probes[0].name, read=True))
+        sw.reset(); return
     redo = []
     for fr in probes:
       if fr.defined is not None and not set(m) <= fr.defined: continue      # the match looks at a header this frame was cut in
@@ -372,7 +403,28 @@ class Checker (object):
       redo.append((fr, want, got))
     sw.clear()
     for fr, want, got in redo:         # classification may need experiments of its own: table is free now
+      if read and self.blame_read(mbytes, m, fr, want, got): continue
       self.classify(mbytes, pm, m, fr, want, got)
+
+  def blame_read (self, mbytes, m, fr, want, got):
+    """Is the wrong lookup the work of a read-only request?  (Right without the reads; then: which request alone does it.)"""
+    ok = ("out", (OUT,)) if want else ("miss",)
+    def lookup (kinds):
+      self.sw.clear()
+      if self.sw.install(mbytes) is not None: self.sw.reset(); return None
+      if kinds: self.sw.read(kinds)
+      r = self.sw.probe(fr.data, fr.in_port)
+      self.rep.transitions += 2 + len(kinds)
+      self.sw.clear()
+      return r
+    if lookup(()) != ok: return False
+    culprit = next((k for k in self.sw.READS if lookup((k,)) != ok), "combination")
+    self.rep.violation("%s:read:lookup-changed-by:%s" % (PID, culprit),
+                       "match %s (participating fields %s), frame %s on port %d: %r right after the flow-mod, but %r once the controller "
+                       "has sent a %s request (no flow-mod in between); the specification says %s"
+                       % (mbytes.hex(), ",".join(sorted(m)) or "none", fr.name, fr.in_port, ok, got, culprit, "match" if want else "no match"),
+                       dict(kind="match", match=mbytes.hex(), frame=fr.name, read=True))
+    return True
 
   def report (self, mbytes, fr, clause, what):
     self.rep.violation("%s:%s" % (PID, clause), what, dict(kind="match", match=mbytes.hex(), frame=fr.name))
@@ -433,7 +485,7 @@ def _work_a (item):
   for mbytes, cross in part_a_matches(base, thorough, chunk, nchunks):
     if mbytes in seen: continue
     seen.add(mbytes)
-    ck.check_match(mbytes, others if cross else [base])
+    ck.check_match(mbytes, others if cross else [base], read=cross)
   return _finish(ck)
 
 
@@ -448,7 +500,7 @@ def _work_p (item):
   for mbytes, cross in part_p_matches(base, thorough):
     if mbytes in seen: continue
     seen.add(mbytes)
-    ck.check_match(mbytes, others if cross else [base])
+    ck.check_match(mbytes, others if cross else [base], read=cross)
   return _finish(ck)
 
 
@@ -700,6 +752,32 @@ class HistoryChecker (object):
                   dict(kind="history", entries=[list(e) for e in seq], frames=[fs[i].name for i in hist]))
 
 
+  def check_reads (self, seq):
+    """Table installed once; every frame looked up, the read-only requests sent, every frame looked up again: both rounds
+    must give what a fresh switch gives (no flow-mod anywhere in between)."""
+    fs = self.frames
+    idx = list(range(len(fs)))
+    want = {}
+    for i in idx: want[fs[i].name] = self.baseline(seq, fs[i])
+    sw = self.live.sw
+    sw.clear()
+    for k, (mid, prio) in enumerate(seq):
+      if sw.install(self.live.alpha[mid], prio, OUT + k) is not None: sw.reset(); return
+    self.rep.transitions += len(seq) + len(sw.READS); self.rep.state_count += 1
+    for rnd in (0, 1):
+      if rnd: sw.read()
+      for i in idx:
+        got = sw.probe(fs[i].data, fs[i].in_port)
+        self.rep.evaluations += 1; self.rep.transitions += 1
+        self.rep.outcome(("HR", rnd, fs[i].name, got))
+        if got != want[fs[i].name]:
+          self.rep.violation("%s:read:table-lookup-changed-by-read-only-requests" % PID if rnd else self.KEY,
+                             "table %s: frame %s on port %d is treated as %r %s; on a fresh switch with the same table: %r"
+                             % (["%s@%d" % e for e in seq], fs[i].name, fs[i].in_port, got,
+                                "after the controller sent %s" % "/".join(sw.READS) if rnd else "in a sequence of lookups", want[fs[i].name]),
+                             dict(kind="history-read", entries=[list(e) for e in seq], frame=fs[i].name))
+    sw.clear()
+
   def check_packet_out (self, seq, only=None):
     """packet-out [VLAN actions..., output:TABLE] for every Ethernet II frame x action list, back to back in one table:
     the lookup must pick what the reference picks for the re-tagged frame's BYTES."""
@@ -750,6 +828,7 @@ def _work_h (item):
   walk = pair_walk(n)
   for seq in tables:
     hc.check(seq, walk)
+    hc.check_reads(seq)
     hc.check_packet_out(seq)
     if triples and len(seq) <= 2: hc.check(seq, de_bruijn(n, 3))
   hc.rep.extra["switch_rebuilds"] = hc.live.sw.resets
@@ -904,13 +983,16 @@ def _work_x (item):
       if mb in seen: continue
       seen.add(mb)
       ck.check_match(mb, [base] + [x for x in frames if x is not base] + mine)
+      ck.check_match(mb, [base] + mine, read=True)
     for t in mine:
       # the cut frame's own fields: only those the specification still defines for it
       fields, app = ck.ext[t.name]
       for f, mb in object_matches(fields, app & t.defined)[:-1] + [("all", W.match())]:
-        ck.check_match(mb, [t, base])
+        ck.check_match(mb, [t, base], read=(f == "all"))
   if "" in names:
-    for f, mb in constant_matches(): ck.check_match(mb, frames + cuts)
+    for f, mb in constant_matches():
+      ck.check_match(mb, frames + cuts)
+      ck.check_match(mb, frames, read=True)
   return _finish(ck)
 
 
@@ -981,7 +1063,9 @@ def run (cfg):
     "rules, each probed with all %d frames; plus %d cut frames (every corpus frame and eth-0600/vlan-0600/len-05dc-snap/ip-hl6 cut at each "
     "header boundary -1/+0/+1, 802.3 frames at every length 14..23) probed with their parent's matches, the matches on their own readable "
     "fields, the constants and the catch-all, asserting only matches whose participating fields lie in completely present headers.  distinct = (frame, participating field set, observation) for A/P, "
-    "(frame, allowed entries, entry that forwarded) for B, (previous frame, frame, observation) and (frame, actions, allowed, observed) for H, "
+    "(frame, allowed entries, entry that forwarded) for B; read-only requests (%s) are sent between flow-mod and lookups for the A/P "
+    "matches that are probed with every frame, for every X match (installed a second time) and in H between two rounds of lookups of all "
+    "frames per table; (previous frame, frame, observation) and (frame, actions, allowed, observed) for H, "
     "(frame, tag, field, observation of object, of bytes) for O"
     % (len(frames), ", ".join(f.name for f in frames), a_rule, p_rule, len(COUNTERS) ** 2, list(COUNTERS),
        "/".join(map(str, FLIPS_ALL)), p_vec, depth, len(lookup_alphabet()),
@@ -989,7 +1073,7 @@ def run (cfg):
        cfg.pick(2, 3), len(history_tables(thorough)), len(history_frames()), ", ".join(f.name for f in R.near_collisions()),
        "; for tables of <=2 entries also a de Bruijn history containing every ordered triple of frames" if thorough else "",
        len(VLAN_ACTIONS), list(TAGS), len(all_frames()), len(R.boundary_frames()), ", ".join(f.name for f in R.boundary_frames()),
-       len(constant_matches()), len(all_frames()), len(R.truncations())))
+       len(constant_matches()), len(all_frames()), len(R.truncations()), "/".join(Sw.READS)))
   rep.bound = dict(wildcard_bit_words=1024, counter_pairs_A=ncp, counter_pairs_P=len(COUNTERS) ** 2, deviations=cfg.pick(1, 2),
                    frames=len(frames), table_entries=depth, lookup_alphabet=len(kinds),
                    history_tables=len(history_tables(thorough)), history_frames=len(history_frames()), history_adjacent=cfg.pick(2, 3))
@@ -1018,6 +1102,14 @@ def replay (cfg, data):
   from mc.env import boot
   boot()
   rep = Report(PID, "model_checking")
+  if data["kind"] == "history-read":
+    hc = HistoryChecker(rep)
+    seq = tuple((e[0], int(e[1])) for e in data["entries"])
+    hc.check_reads(seq)
+    lines = ["table: " + ", ".join("%s priority %d -> port %d" % (m, p, OUT + i) for i, (m, p) in enumerate(seq)),
+             "all frames looked up, read-only requests %s sent, all frames looked up again" % "/".join(Sw.READS)]
+    for k, v in sorted(rep.violations.items()): lines.append("%s: %s" % (k, v["what"]))
+    return bool(rep.violations), "\n".join(lines)
   if data["kind"] == "history":
     hc = HistoryChecker(rep)
     names = [f.name for f in hc.frames]
@@ -1067,9 +1159,12 @@ def replay (cfg, data):
     lines.append("  participating per specification: " + (", ".join(
       "%s=%s" % (f, (m[f].hex() if isinstance(m[f], bytes) else m[f])) for f in FIELDS if f in m) or "none (matches everything)"))
     lines.append("  reference verdict: %s" % ("match" if ref_matches(m, fields) else "no match"))
-    ck.check_match(mb, [fr])
+    ck.check_match(mb, [fr], read=bool(data.get("read")))
     r = ck.sw.install(mb)
     lines.append("  switch: install -> %r, rx -> %r" % (r, ck.sw.probe(fr.data, fr.in_port) if r is None else None))
+    if data.get("read"):
+      ck.sw.read()
+      lines.append("  switch: after read-only requests %s: rx -> %r" % ("/".join(ck.sw.READS), ck.sw.probe(fr.data, fr.in_port)))
   else:
     ck = LookupChecker(rep, history_alphabet(), history_frames())
     seq = tuple((e[0], int(e[1])) for e in data["entries"])
